@@ -45,11 +45,13 @@ Definition L (s : st) (j : nat) (p : pc) : Prop :=
   | CCas _ => created s = true
   | CAssign _ | CDone _ | CCloser _ | CLock _ | CTell _ _ => winners s = [j]
   | PLoad _ => mu s = Some j
+  | PAppend fs raw => mu s = Some j /\ raw = fwd s ++ fs /\ taken s = false
   | PWaitDone _ => closed s = true
   | PTell _ r => exists v, final s = Some v /\ r = vpair v
   | _ => True
   end.
 
+Definition holder_pc (p : pc) : bool := match p with PLoad _ | PAppend _ _ => true | _ => false end.
 Definition wl (w : nat) (v : val) : list (nat * bool) := match v with VNil => [] | _ => [(w, false)] end.
 Definition stopped_ok (s : st) : Prop := tstopped s = match armed s with Some _ => true | None => false end.
 
@@ -57,17 +59,17 @@ Definition stopped_ok (s : st) : Prop := tstopped s = match armed s with Some _ 
 Definition wphase (s : st) (w : nat) (v : val) (p : pc) : Prop :=
   match p with
   | CAssign v' => v' = v /\ v <> VNil /\ assigned s = false /\ err s = None /\ msg s = None /\ done s = false /\
-                  wlog s = [] /\ closer_ran s = false /\ tstopped s = false
+                  wlog s = [] /\ closer_ran s = false /\ tstopped s = false /\ taken s = false
   | CDone v' => v' = v /\ assigned s = true /\ res_of s = vpair v /\ done s = false /\ wlog s = wl w v /\
-                closer_ran s = false /\ tstopped s = false
+                closer_ran s = false /\ tstopped s = false /\ taken s = false
   | CCloser v' => v' = v /\ assigned s = true /\ res_of s = vpair v /\ done s = true /\ wlog s = wl w v /\
-                  closer_ran s = false /\ stopped_ok s
+                  closer_ran s = false /\ stopped_ok s /\ taken s = false
   | CLock v' => v' = v /\ assigned s = true /\ res_of s = vpair v /\ done s = true /\ wlog s = wl w v /\
-                closer_ran s = true /\ stopped_ok s
+                closer_ran s = true /\ stopped_ok s /\ taken s = false
   | CTell _ r => r = vpair v /\ assigned s = true /\ res_of s = vpair v /\ done s = true /\ wlog s = wl w v /\
-                 closer_ran s = true /\ stopped_ok s /\ fwd s = []
+                 closer_ran s = true /\ stopped_ok s /\ fwd s = [] /\ taken s = true
   | Done => assigned s = true /\ res_of s = vpair v /\ done s = true /\ wlog s = wl w v /\
-            closer_ran s = true /\ stopped_ok s /\ fwd s = []
+            closer_ran s = true /\ stopped_ok s /\ fwd s = [] /\ taken s = true
   | _ => False
   end.
 
@@ -77,10 +79,10 @@ Record Inv (s : st) : Prop := {
           closed s = false /\ sent s = false /\ armed s = None /\ fired s = None /\ rlookup fpath (reg s) = None;
   i_open : closed s = false ->
            winners s = [] /\ final s = None /\ assigned s = false /\ err s = None /\ msg s = None /\ done s = false /\
-           wlog s = [] /\ closer_ran s = false /\ tstopped s = false /\ attempts s = [];
+           wlog s = [] /\ closer_ran s = false /\ tstopped s = false /\ attempts s = [] /\ taken s = false;
   i_win : closed s = true ->
           exists w v p, winners s = [w] /\ final s = Some v /\ nth_error (thr s) w = Some p /\ wphase s w v p;
-  i_mu : forall j, mu s = Some j -> exists fs, nth_error (thr s) j = Some (PLoad fs);
+  i_mu : forall j, mu s = Some j -> exists p, nth_error (thr s) j = Some p /\ holder_pc p = true;
   i_route : forall q id, rlookup q (reg s) = Some id -> (q = fpath <-> id = fid);
   i_reg : rlookup fpath (reg s) <> None -> nth_error (thr s) 0 = Some ACheck \/ closer_ran s = false;
   i_ask : sent s = false -> exists j p, nth_error (thr s) j = Some p /\ ask_pc p = true;
